@@ -201,7 +201,9 @@ pub fn parse_group_file<R: Read + Seek>(
                 // MOGP contains sub-chunks - we need to parse them
                 // The remaining chunk data contains nested chunks
                 // MogpHeader is 68 bytes when serialized (not std::mem::size_of due to Vec fields)
-                let data_size = chunk_info.size - 68;
+                let data_size = chunk_info.size.checked_sub(68).ok_or_else(|| {
+                    WmoError::InvalidFormat("MOGP chunk is smaller than its header".into())
+                })?;
                 let mut data_reader = std::io::Cursor::new(read_chunk_data(reader, data_size)?);
 
                 // Parse nested chunks within MOGP
@@ -393,8 +395,7 @@ fn read_chunk_data<R: Read>(
     reader: &mut R,
     size: u32,
 ) -> std::result::Result<Vec<u8>, Box<dyn std::error::Error>> {
-    let mut data = vec![0u8; size as usize];
-    reader.read_exact(&mut data)?;
+    let data = crate::chunk::read_vec(reader, size as usize)?;
     Ok(data)
 }
 
